@@ -327,6 +327,7 @@ class CallMixin:
         tag = getattr(self, "ctor_tags", {}).get(cls_q)
         if tag is not None:
             argdeps = argdeps | {tag}
+            self.tagged_sites.setdefault(tag, set()).update(l[0] for l in obj.alias)
         return replace(obj, deps=argdeps)
 
     # -------------------------------------------------------------- lambdas
